@@ -117,6 +117,17 @@ def gen_case(rnd, tier, index):
                     c['v'] = hostile_value(rnd)
                     if c['v'] == '':
                         c['v'] = None     # an xlsx file cannot hold an empty text constant
+    if workload != 'cycle' and rnd.random() < 0.3:
+        # a formula longer than one line of the text file, with text literals in it
+        main = next(s_ for s_ in spec['sheets'] if s_ != spec.get('data_sheet'))
+        first = next((c['a'] for c in spec['cells'] if wbgen.split_addr(c['a'])[0] == main), None)
+        lits = rnd.sample(('"ab  cd"', '"x   y"', '" lead"', '"a: b"', '"tail  "', '"q - r"',
+                           '"#  no"', '"1,  2"'), 4)
+        body = '&'.join(rnd.choice(lits) for _ in range(rnd.randint(10, 16)))
+        if first:
+            body += '&' + wbgen.split_addr(first)[1]
+        spec['cells'].append({'a': f'{main}!{wbgen.rc_coord(40, 1)}', 'f': '=' + body,
+                              'p': [first] if first else [], 'd': []})
     dag = wbgen.Dag(spec)
     if rnd.random() < 0.3:
         cfg['extra_data'] = rnd.choice((
